@@ -91,12 +91,95 @@ def forest_certificate(n, adj, lab):
     return par, rank
 
 
+def slices_checks(chk):
+    """`_get_slices` (the index ranges the partial scorer and the clustering cut out of a word) against the Lean `slices` and the theorem
+    C16_slices: the observed morphemes are a decomposition of the tokens (Lean `decompOkb`), the slices are the model's, and every slice
+    cuts exactly its morpheme out of the tokens - with and without splitting on tones."""
+    from lingpy.compare.partial import _get_slices
+    from lingpy.sequence.sound_classes import tokens2morphemes, tokens2class
+    from lingpy.basictypes import lists as seglist
+    from lingpy.settings import rcParams
+    rng = chk.rng
+    drv = common.Driver()
+    sepchars = sorted(set(rcParams['morpheme_separator'] + rcParams['word_separator'] + rcParams['word_separators'] + rcParams['morpheme_separators']))
+    bad, fails = [], []
+    n = chk.n(600, 20000)
+    lines, metas = [], []
+    mlines, mmetas = [], []
+    for _ in range(n):
+        d = gen_partial_wordlist(rng)
+        for k in list(d)[1:4]:
+            toks = list(d[k][3])
+            if rng.random() < 0.2 and len(toks) > 3 and '+' not in toks:
+                toks.insert(rng.randrange(1, len(toks) - 1), rng.choice(['_', '+']))
+            for sot in (False, True):
+                chk.evaluations += 1
+                if not sot and any(t in sepchars and t != '+' for t in toks):
+                    continue                      # without tone splitting the morphemes are those of the `+` borders only
+                try:
+                    real = [tuple(x) for x in _get_slices(list(toks), split_on_tones=sot)]
+                    morphs = [list(m) for m in (tokens2morphemes(list(toks), split_on_tones=True) if sot else seglist(list(toks)).n)]
+                except Exception as ex:  # noqa
+                    fails.append((toks, sot, 'raised %s: %s' % (type(ex).__name__, str(ex)[:80])))
+                    continue
+                code = {}
+                for t in toks + [x for m in morphs for x in m] + sepchars:
+                    code.setdefault(t, len(code) + 1)
+                seps = sepchars if sot else ['+']
+                lines.append('slices|%s|%s|%s' % (' '.join(str(code[t]) for t in toks), ' '.join(','.join(str(code[t]) for t in m) for m in morphs),
+                                                    ' '.join(str(code[t]) for t in seps)))
+                metas.append((toks, sot, real, morphs))
+                # the morphemes themselves against the Lean morphemesOf (theorem C16_slices_total needs no observed morphemes then)
+                try:
+                    cv = tokens2class(list(toks), 'cv')
+                    tones = sorted(set(code[t] for t, c_ in zip(toks, cv) if c_ == 'T'))
+                except Exception:  # noqa
+                    tones = None
+                if tones is not None:
+                    mlines.append('morphs|%d|%s|%s|%s' % (1 if sot else 0, ' '.join(str(code[t]) for t in toks), ' '.join(str(code[t]) for t in seps),
+                                                          ' '.join(map(str, tones))))
+                    mmetas.append((toks, sot, [[code[t] for t in m] for m in morphs]))
+                for (a, b), m in zip(real, morphs):
+                    if toks[a:b] != m:
+                        fails.append((toks, sot, 'slice (%d, %d) cuts %r out of the segments, the morpheme is %r' % (a, b, toks[a:b], m)))
+                        break
+                if len(real) != len(morphs):
+                    fails.append((toks, sot, '%d slices for %d morphemes' % (len(real), len(morphs))))
+    for (toks, sot, real, morphs), o in zip(metas, drv.ask_many(lines)):
+        model = [tuple(map(int, x.split(':'))) for x in o[3:].split()]
+        if o[:2] != 'D1' or model != real:
+            bad.append((toks, sot, real, o))
+    mbad = []
+    for (toks, sot, want), o in zip(mmetas, drv.ask_many(mlines)):
+        got = [[int(x) for x in m.split(',') if x] for m in o[2:].split()]
+        if got != want:
+            mbad.append((toks, sot, want, o))
+    chk.obligation('correspondence:tokens2morphemes / lists.n == Lean morphemesOf (written borders win, a non-final tone ends a morpheme when asked for; '
+                   'theorems decomp_morphemesOf, C16_slices_total)', 'correspondence', not mbad,
+                   'token lists=%d mismatches=%d %s' % (len(mmetas), len(mbad), str(mbad[0])[:200] if mbad else ''))
+    if mbad and not fails:
+        chk.violation('the morphemes of a token list differ from the model; every slice still cuts its morpheme',
+                      {'kind': 'morphemes-model', 'detail': str(mbad[0])[:400], 'broken': 'correspondence:morphemesOf'}, found_input=False)
+    drv.close()
+    chk.hist['_get_slices: token lists checked (x 2 settings of split_on_tones)'] += len(metas)
+    chk.obligation('correspondence:_get_slices == Lean slices on the observed morphemes, which are a decomposition of the tokens (decompOkb; theorem C16_slices)',
+                   'correspondence', not bad, 'token lists=%d mismatches=%d %s' % (len(metas), len(bad), str(bad[0])[:200] if bad else ''))
+    chk.obligation('oracle:every slice cuts exactly its morpheme out of the segments (with and without split_on_tones)', 'correspondence', not fails,
+                   'failures=%d' % len(fails))
+    for f in fails[:1]:
+        chk.violation('_get_slices(%r, split_on_tones=%r): %s' % (' '.join(f[0]), f[1], f[2]), {'kind': 'slices', 'tokens': f[0], 'split_on_tones': f[1], 'why': f[2]})
+    if bad and not fails:
+        chk.violation('_get_slices differs from the model (or the morphemes are no decomposition of the segments); every slice still cuts its morpheme',
+                      {'kind': 'slices-model', 'detail': str(bad[0])[:400], 'broken': 'correspondence:_get_slices'}, found_input=False)
+
+
 def run(chk):
     from lingpy.compare.partial import Partial
     chk.rule = ('generated morpheme-segmented wordlists (1-4 morphemes per word, repeated morphemes inside a word, synonyms, gaps, '
                 'non-contiguous ids) x {upgma, single, complete} x thresholds x post-processing on/off; strict and loose word-level ids; '
                 'non-trivial = some word has more than one morpheme and some id is shared')
     chk.lean_obligations()
+    slices_checks(chk)
     rng = chk.rng
     drv = common.Driver()
     bad, fails = [], []
